@@ -1,5 +1,5 @@
 (* C02 — Writer conforms to the frozen .qco format (independent decoder agrees). *)
-From QCo.Lemmas Require Import Tactics.
+From QCo.Lemmas Require Import Tactics SpecL.
 From QCo.Model Require Import Base Consts Frozen DType Codec Writer Spec AssetsData.
 Open Scope N_scope.
 
@@ -20,3 +20,10 @@ Definition spec_asset_ok (a : dtype * list N * list Z) : bool :=
   end.
 Theorem C02_grammar_reads_shipped_assets : forallb spec_asset_ok assets = true.
 Proof. vm_compute. reflexivity. Qed.
+
+(* the frozen grammar is unambiguous: its decoder inverts its serialiser on every well-formed
+   AST (any legal table, run split, gcd choice, flag combination), consuming exactly the file *)
+Theorem C02_grammar_roundtrip : forall a rest, wf_file a -> Nlen rest mod 8 = 0 ->
+  dec_file (sf_dt a) (enc_file a ++ rest)
+  = Some (a, map (fun c => Nlen (enc_body c) / 8) (sf_chunks a), rest).
+Proof. exact dec_enc_file. Qed.
